@@ -226,6 +226,72 @@ def _moved_items(d):
     return out
 
 
+def _renamed_fns(d):
+    """{current path: canonical path} for public functions of the library that were renamed: the function named on the pinned tree is
+    gone, and exactly one function of the analysed tree has its signature (and, where several functions share a signature, its
+    distinguishing trait: a crate it calls, a field it reads, a variant it mentions)."""
+    import re
+    try:
+        canon = json.load(open(CANONICAL)).get("fns_by_signature", [])
+    except (OSError, ValueError):
+        return {}
+
+    def norm(t):
+        return re.sub(r"'\w+ ?", "", t or "").replace(" ", "")
+    fns = [f for f in d["items"].get("fns", []) if "yaserde_tests" not in f["path"] and "tests::" not in f["path"] and "helpers_content" not in f["path"]
+           and "{" not in f["path"] and "test_utils" not in f["path"]]
+    have = {f["path"] for f in fns}
+    canon_paths = {r["path"] for r in canon}
+    bodies = {b["path"]: b for b in d.get("bodies", [])}
+    out = {}
+    for r in canon:
+        if r["path"] in have:
+            continue
+        cands = [f for f in fns if [norm(x) for x in f["inputs"]] == r["inputs"] and norm(f["output"]) == r["output"] and f["path"] not in canon_paths]
+        # methods stay methods of the same type, free functions stay free functions of some module
+        owner = r["path"].rsplit("::", 1)[0]
+        is_method = owner.rsplit("::", 1)[-1][:1].isupper()
+        cands = [f for f in cands if (f["path"].rsplit("::", 1)[0] == owner) == is_method or not is_method]
+        if is_method:
+            cands = [f for f in cands if f["path"].rsplit("::", 1)[0] == owner]
+
+        def has(f, key, needle):
+            bs = [b_ for p_, b_ in bodies.items() if p_ == f["path"] or p_.startswith(f["path"] + "::{closure")]
+            if not bs:
+                return False
+            txt = " ".join(json.dumps(b_.get("mir") if key != "mentions" else b_.get("hir")) for b_ in bs)
+            if key == "calls":
+                return needle in txt
+            if key == "reads":
+                return ('"f": "%s"' % needle) in txt
+            return needle in txt
+        for key in ("calls", "reads", "mentions"):
+            if key in r:
+                cands = [f for f in cands if has(f, key, r[key])]
+        if "not_calls" in r:
+            cands = [f for f in cands if not has(f, "calls", r["not_calls"])]
+        if len(cands) == 1:
+            out[cands[0]["path"]] = r["path"]
+    return out
+
+
+def _rename_method_calls(node, renamed_last):
+    """method-call nodes of the typed HIR carry the method's name next to its path: align it with the (rewritten) path"""
+    if isinstance(node, dict):
+        if node.get("k") == "MethodCall":
+            for key in ("inst_path", "path"):
+                p_ = node.get(key)
+                if p_ in renamed_last:
+                    node["name"] = renamed_last[p_]
+                    break
+        for v in node.values():
+            if isinstance(v, (dict, list)):
+                _rename_method_calls(v, renamed_last)
+    elif isinstance(node, list):
+        for v in node:
+            _rename_method_calls(v, renamed_last)
+
+
 def _rewrite_paths(text, mapping, prefix=""):
     import re
     for old_ in sorted(mapping, key=len, reverse=True):
@@ -243,6 +309,21 @@ class Crate:
         if self.moved:
             raw = _rewrite_paths(raw, self.moved, prefix="" if d.get("crate") == "zeep_lib" else "zeep_lib::")
             d = json.loads(raw)
+        if moved is None and d.get("crate") == "zeep_lib":
+            for _ in range(3):     # (a function recognised by what it calls may need its callee recognised first)
+                ren = _renamed_fns(d)
+                if not ren:
+                    break
+                raw = _rewrite_paths(raw, ren)
+                d = json.loads(raw)
+                self.moved = dict(self.moved, **ren)
+        if self.moved:
+            # after the rewrite the canonical path is in place; method-call nodes still carry the old method name
+            lasts = {new_: new_.rsplit("::", 1)[-1] for old_, new_ in self.moved.items() if old_.rsplit("::", 1)[-1] != new_.rsplit("::", 1)[-1]}
+            if lasts:
+                full = dict(lasts)
+                full.update({"zeep_lib::" + k_: v_ for k_, v_ in lasts.items()})
+                _rename_method_calls(d.get("bodies", []), full)
         self.name = d["crate"]
         self.items = d["items"]
         self.defs = d["defs"]
